@@ -235,6 +235,31 @@ func CmdCheck(prop, tier string) int {
 			records = append(records, oblRecord{Name: k + "#vacuity:return", Verdict: "vacuous"})
 			reportFail(k+"#vacuity:return", "vacuity", "no returning path is satisfiable: assumptions contradictory", "", "", nil, nil)
 		}
+		// every clause "A ==> B" must have its antecedent reachable on some returning path: an implication
+		// whose antecedent no path can satisfy (contradictory assumed contracts, a success that cannot
+		// happen any more) would be proved vacuously. Only a refuted cover counts; undecided covers pass.
+		for _, lab := range fr.CoverOrder {
+			insts := fr.Covers[lab]
+			covered := false
+			for n, ci := range insts {
+				if n >= 32 {
+					covered = true // too many paths to enumerate: undecided covers pass
+					break
+				}
+				if ci.Cond.IsTrue() || fr.Exec.CheckSatWith(ci.PC, ci.Cond, quickT) != VUnsat {
+					covered = true
+					break
+				}
+			}
+			vac["antecedents"]++
+			if covered {
+				vac["antecedents_reachable"]++
+			} else {
+				nObl++
+				records = append(records, oblRecord{Name: k + "#cover:" + lab, Verdict: "vacuous"})
+				reportFail(k+"#cover:"+lab, "vacuity", "the antecedent of this clause is unreachable on every returning path: the clause would hold vacuously (contradictory assumptions, or the case it describes can no longer occur)", "", "", nil, nil)
+			}
+		}
 		knownOpen := map[string]bool{}
 		for _, kf := range known {
 			if kf.Property == prop && kf.Fixed == "" {
